@@ -9,10 +9,10 @@
    a finite id domain.  The changes selected for shelving are a predicate  tag -> id -> bool ; per
    id they are applied in iter_shelvable order (rename, then content), as Shelver.run does.
    What is NOT modelled (see notes/C15.md): the executable bit after UNSHELVE of a touched file
-   (masked in the correspondence run, checked by the oracle: finding C15-exec-bit), the garbage that
-   shelve_deletion's existing_path heuristic produces when the deleted path is occupied (outcome
-   [SClobber]: finding C15-existing-path), conflict resolution of a malformed shelf preview
-   ([UShelfNotWf]).  No proofs here. *)
+   (masked in the correspondence run, checked by the oracle: finding C15-exec-bit), conflict
+   resolution of a malformed shelf preview ([SShelfNotWf]: finding C15-open-selection), and
+   shelve_deletion's existing_path branch (since 1d3d426 taken only for an UNVERSIONED leftover at the
+   deleted file's path; the trees considered here have no unversioned files).  No proofs here. *)
 From Coq Require Import NArith List Bool String.
 From BV Require Import Lib.Bytes Lib.Obs.
 Import ListNotations.
@@ -135,38 +135,13 @@ Definition wf_shapes (l : list (N * shape)) : bool :=
 
 Definition wfb (dom : list N) (t : tree) : bool := wf_shapes (shapes dom t).
 
-(* path of an id: names from the root *)
-Fixpoint path_of (fuel : nat) (l : list (N * shape)) (i : N) : list bytes :=
-  if i =? 0 then [] else
-  match fuel with
-  | O => []
-  | S f => match find_shape i l with
-           | Some (p, n, _) => path_of f l p ++ [n]
-           | None => []
-           end
-  end.
-
-Definition paths_eqb (a b : list bytes) : bool := list_eqb bytes_eqb a b.
-
-(* shelve_deletion: existing_path = target_tree.id2path(file_id) exists in the work tree *)
-Definition clobber (dom : list N) (basis wt : tree) (s : selection) : bool :=
-  let lb := shapes dom basis in let lw := shapes dom wt in
-  existsb (fun i =>
-     match basis i, wt i with
-     | Some _, None =>
-         s CDel i &&
-         existsb (fun x => paths_eqb (path_of (List.length lw) lw (fst x)) (path_of (List.length lb) lb i)) lw
-     | _, _ => false
-     end) dom.
-
-Inductive sres := SClobber | SShelfNotWf | SMalformed | SOk (work shelf : tree).
+Inductive sres := SShelfNotWf | SMalformed | SOk (work shelf : tree).
 
 (* shelve_changes: write_shelf runs resolve_conflicts on the shelf transform first (outcome not
    modelled when the shelf preview is ill-formed: it may rewrite the shelf or crash), then
    creator.transform() applies the work transform (MalformedTransform when ill-formed) *)
 Definition shelve (dom : list N) (basis wt : tree) (s : selection) : sres :=
-  if clobber dom basis wt s then SClobber
-  else if negb (wfb dom (shelf_of basis wt s)) then SShelfNotWf
+  if negb (wfb dom (shelf_of basis wt s)) then SShelfNotWf
   else if wfb dom (work_of basis wt s) then SOk (work_of basis wt s) (shelf_of basis wt s)
   else SMalformed.
 
@@ -279,28 +254,19 @@ Definition entry_obs (mask : bool) (i : N) (e : entry) : obs :=
 Definition tree_obs (dom : list N) (masked : N -> bool) (t : tree) : obs :=
   OL (flat_map (fun i => match t i with Some e => [entry_obs (masked i) i e] | None => [] end) dom).
 
-(* a basis path is vacated and re-occupied by another id in the shelf preview: PreviewTree.path2id
-   may then resolve the path to the wrong entry and the unshelve merge may raise NoSuchFile (finding
-   C15-preview-path-reuse); the outcome of unshelve is not predicted for such inputs *)
-Definition path_reuse (dom : list N) (basis shelf : tree) : bool :=
-  let lb := shapes dom basis in let ls := shapes dom shelf in
-  existsb (fun x => existsb (fun y => negb (fst x =? fst y) &&
-                                      paths_eqb (path_of (List.length ls) ls (fst x))
-                                                (path_of (List.length lb) lb (fst y))) lb) ls.
-
 Definition touched (s : selection) (i : N) : bool :=
   s CAdd i || s CDel i || s CRen i || s CKind i || s CText i || s CTarget i.
 
+(* observation: offered changes; outcome of shelve_changes; the shelf ids present afterwards (the
+   shelf file is removed again when the work transform is refused, b9aec9c); outcome of unshelve *)
 Definition run_tree (dom : list N) (basisL wtL : list (N * entry)) (selL : list (ctag * N)) : obs :=
   let basis := of_list basisL in let wt := of_list wtL in let s := sel_of selL in
   let off := OL (flat_map (fun i => map (fun t => OL [oN i; ctag_obs t]) (offered_at (basis i) (wt i))) dom) in
   match shelve dom basis wt s with
-  | SClobber => OL [off; OT "existing-path"%string; ON]
-  | SShelfNotWf => OL [off; OT "shelf-not-wf"%string; ON]
-  | SMalformed => OL [off; OE "MalformedTransform"%string; ON]
+  | SShelfNotWf => OL [off; OT "shelf-not-wf"%string; ON; ON]
+  | SMalformed => OL [off; OE "MalformedTransform"%string; OL []; ON]
   | SOk work shelf =>
-      OL [off; tree_obs dom (fun _ => false) work;
-          if path_reuse dom basis shelf then OT "path-reuse"%string else
+      OL [off; tree_obs dom (fun _ => false) work; OL [oN 1];
           match unshelve dom basis shelf work with
           | UShelfNotWf => OT "shelf-not-wf"%string
           | UConflict => OT "conflict"%string
